@@ -728,9 +728,10 @@ func (p *Printer) define(t *Term, out *strings.Builder) {
 	}
 }
 
-// Prelude defines tdiv/trem.
+// Prelude defines tdiv/trem and fpparts (a float64 from sign, biased exponent and 52-bit fraction given as Ints).
 const Prelude = `(define-fun tdiv ((a Int) (b Int)) Int (ite (>= a 0) (ite (> b 0) (div a b) (- (div a (- b)))) (ite (> b 0) (- (div (- a) b)) (div (- a) (- b)))))
 (define-fun trem ((a Int) (b Int)) Int (- a (* b (tdiv a b))))
+(define-fun fpparts ((neg Bool) (be Int) (mant Int)) (_ FloatingPoint 11 53) (fp (ite neg #b1 #b0) ((_ int2bv 11) be) ((_ int2bv 52) mant)))
 `
 
 // String renders a term as a readable expression (for diagnostics only).
